@@ -2,7 +2,91 @@ package sim
 
 import (
 	"math/rand/v2"
+	"strings"
 )
+
+// The choices of a run are kept in separate streams, so that the shrinker can
+// delete, say, a scenario item without shifting every scheduling decision
+// that follows it in time.
+const (
+	streamGen   = iota // scenario, payloads, fault plans
+	streamSched        // which task runs next, time ticks
+	streamOrder        // select case orders, map iteration orders
+	streamIO           // read / write chunk sizes
+	nStreams
+)
+
+// Trace is the recorded (or replayed) choices of one run, per stream.
+type Trace [][]uint32
+
+func newTrace() Trace { return make(Trace, nStreams) }
+
+func (t Trace) clone() Trace {
+	c := newTrace()
+	for i := range t {
+		if i < nStreams {
+			c[i] = append([]uint32(nil), t[i]...)
+		}
+	}
+	return c
+}
+
+// trimmed drops trailing zeros of every stream (missing answers are 0 anyway).
+func (t Trace) trimmed() Trace {
+	c := t.clone()
+	for i := range c {
+		for len(c[i]) > 0 && c[i][len(c[i])-1] == 0 {
+			c[i] = c[i][:len(c[i])-1]
+		}
+	}
+	return c
+}
+
+// Len is the total number of choices.
+func (t Trace) Len() int {
+	n := 0
+	for _, s := range t {
+		n += len(s)
+	}
+	return n
+}
+
+// less orders traces by (total length, stream by stream lexicographic).
+func (t Trace) less(o Trace) bool {
+	if t.Len() != o.Len() {
+		return t.Len() < o.Len()
+	}
+	for i := 0; i < nStreams; i++ {
+		var a, b []uint32
+		if i < len(t) {
+			a = t[i]
+		}
+		if i < len(o) {
+			b = o[i]
+		}
+		if len(a) != len(b) {
+			return len(a) < len(b)
+		}
+		for k := range a {
+			if a[k] != b[k] {
+				return a[k] < b[k]
+			}
+		}
+	}
+	return false
+}
+
+func streamOf(label string) int {
+	switch {
+	case label == "run" || strings.HasPrefix(label, "tick"):
+		return streamSched
+	case strings.HasPrefix(label, "select ") || strings.HasPrefix(label, "maprange "):
+		return streamOrder
+	case strings.HasPrefix(label, "chunk") || label == "tiny chunk":
+		return streamIO
+	}
+	return streamGen
+}
 
 // Chooser is the single source of nondeterminism of a run (DESIGN.md 2.1).
 // In search mode answers come from a PRNG seeded from (VERIF_SEED, run index);
@@ -10,11 +94,11 @@ import (
 // answers are reduced modulo n). Every answer is recorded.
 type Chooser struct {
 	rng    *rand.Rand
-	replay []uint32
+	replay Trace
 	isRep  bool
-	pos    int
-	Rec    []uint32
-	Labels []string // only when KeepLabels
+	pos    [nStreams]int
+	Rec    Trace
+	Labels []string // only when Keep
 	Keep   bool
 }
 
@@ -30,12 +114,12 @@ func mix64(a, b uint64) uint64 {
 
 // NewSearchChooser returns a PRNG-backed chooser for run index idx of seed.
 func NewSearchChooser(seed uint64, idx uint64) *Chooser {
-	return &Chooser{rng: rand.New(rand.NewPCG(mix64(seed, idx), mix64(idx, seed^0xabcdef)))}
+	return &Chooser{rng: rand.New(rand.NewPCG(mix64(seed, idx), mix64(idx, seed^0xabcdef))), Rec: newTrace()}
 }
 
 // NewReplayChooser returns a chooser answering from trace.
-func NewReplayChooser(trace []uint32) *Chooser {
-	return &Chooser{replay: trace, isRep: true}
+func NewReplayChooser(trace Trace) *Chooser {
+	return &Chooser{replay: trace.clone(), isRep: true, Rec: newTrace()}
 }
 
 // Choose returns a value in [0,n).
@@ -44,15 +128,16 @@ func (c *Chooser) Choose(n int, label string) int {
 		return 0
 	}
 	var v int
+	st := streamOf(label)
 	if c.isRep {
-		if c.pos < len(c.replay) {
-			v = int(c.replay[c.pos] % uint32(n))
+		if r := c.replay[st]; c.pos[st] < len(r) {
+			v = int(r[c.pos[st]] % uint32(n))
 		}
-		c.pos++
+		c.pos[st]++
 	} else {
 		v = c.rng.IntN(n)
 	}
-	c.Rec = append(c.Rec, uint32(v))
+	c.Rec[st] = append(c.Rec[st], uint32(v))
 	if c.Keep {
 		c.Labels = append(c.Labels, label)
 	}
@@ -98,4 +183,4 @@ func (c *Chooser) Weighted(weights []int, label string) int {
 }
 
 // Used is the number of answers consumed so far.
-func (c *Chooser) Used() int { return len(c.Rec) }
+func (c *Chooser) Used() int { return c.Rec.Len() }
